@@ -45,6 +45,7 @@ def run(chk):
     chk.guard('siblings', 'agreement', lambda: siblings(chk, runs))
     chk.guard('defaults', 'map_to / identity_map', lambda: defaults(chk, lab))
     chk.guard('delegation', 'OffsetPageTable', lambda: delegation(chk, lab))
+    chk.guard('constructors', 'mapper constructors and accessors', lambda: constructors(chk, lab))
     # clean-up calls are part of the histories: the structural rules of C10 (only empty tables are unlinked and freed, emptiness is
     # judged over the whole table, nothing else is written) are what keeps every translation unchanged
     from . import c10
@@ -509,3 +510,73 @@ def forward(chk, lab, outer, target, size, extra, translate=False, cleanup=None)
             else:
                 ok = ok and (('#%d' % calls[0][5]) in repr(o.val) or (isinstance(o.val, Struct) and not o.val.fields))
     chk.ob('delegation', 'OffsetPageTable: %s is one call of the inner method with the same arguments, result returned' % short.replace(MP, ''), ok, 'paths %r' % (outs,), fn_site(I, outer))
+
+
+def constructors(chk, lab):
+    """the mapper objects are exactly what they were built from: `new` stores the given root table and frame mapping / offset / recursive
+    index (which every operation above then reads), and the accessors hand the same root table back"""
+    I = lab.I
+    PHYSOFF = MP + 'offset_page_table::PhysOffset'
+    WALKER = MP + 'mapped_page_table::PageTableWalker'
+    root = Ref(('obj', 'P4'))
+
+    def run(fn_, args, st=None, sub=None):
+        chk.count('function-instances')
+        return I.run(fn_, args, st if st is not None else State(), sub or {'P': {'k': 'param', 'name': 'P'}})
+
+    def one(outs):
+        return len(outs) == 1 and outs[0].kind == 'ret'
+    # MappedPageTable::new(table, mapping)
+    fn_ = MAPPED + "::<'a, P>::new"
+    o = run(fn_, [root, Opaque('the-mapping')])
+    ok = one(o)
+    if ok:
+        v = o[0].val
+        parts = [x for x in v.fields]
+        ok = isinstance(v, Struct) and v.name == MAPPED and any(isinstance(x, Ref) and x.loc == ('obj', 'P4') and not x.path for x in parts) and \
+            any(isinstance(x, Struct) and x.name == WALKER and any(isinstance(y, Opaque) and y.tag == 'the-mapping' for y in x.fields) for x in parts)
+    chk.ob('constructors', 'MappedPageTable::new stores the given root table and frame mapping', ok, 'paths %r' % (o,), fn_site(I, fn_))
+    # OffsetPageTable::new(table, offset) = MappedPageTable over PhysOffset { offset }
+    fn_ = OFFSET + "::<'a>::new"
+    off = I.sym_value(adt('addr::VirtAddr'), 'off')
+    o = run(fn_, [root, off])
+    ok = one(o)
+    if ok:
+        v = o[0].val
+        inner_ = v.fields[0] if isinstance(v, Struct) and v.name == OFFSET and v.fields else None
+        ok = isinstance(inner_, Struct) and inner_.name == MAPPED and any(isinstance(x, Ref) and x.loc == ('obj', 'P4') and not x.path for x in inner_.fields)
+        w = [x for x in inner_.fields if isinstance(x, Struct) and x.name == WALKER] if ok else []
+        ok = ok and len(w) == 1 and any(isinstance(y, Struct) and y.name == PHYSOFF and same(y.fields[0], off) for y in w[0].fields)
+    chk.ob('constructors', 'OffsetPageTable::new builds a MappedPageTable over the given root table whose frame mapping adds exactly the given offset', ok, 'paths %r' % (o,), fn_site(I, fn_))
+    # RecursivePageTable::new_unchecked(table, index)
+    fn_ = REC + "::<'a>::new_unchecked"
+    idx = I.sym_value(adt('structures::paging::page_table::PageTableIndex'), 'r')
+    o = run(fn_, [root, idx])
+    ok = one(o)
+    if ok:
+        v = o[0].val
+        ok = isinstance(v, Struct) and v.name == REC and any(isinstance(x, Ref) and x.loc == ('obj', 'P4') and not x.path for x in v.fields) and any(same(x, idx) for x in v.fields if isinstance(x, Struct))
+    chk.ob('constructors', 'RecursivePageTable::new_unchecked stores the given root table and recursive index', ok, 'paths %r' % (o,), fn_site(I, fn_))
+    # accessors: level_4_table / level_4_table_mut return the root the object was built with
+    for impl, names in (('mapped', [MAPPED + "::<'a, P>::level_4_table", MAPPED + "::<'a, P>::level_4_table_mut"]),
+                        ('offset', [OFFSET + "::<'a>::level_4_table", OFFSET + "::<'a>::level_4_table_mut"]),
+                        ('recursive', [REC + "::<'a>::level_4_table", REC + "::<'a>::level_4_table_mut"])):
+        for fn_ in names:
+            if fn_ not in I.fn:
+                chk.unproven('constructors', fn_.split('::')[-1] + ' of ' + impl, 'function not found (anchor lost)')
+                continue
+            st = lab.setup(impl)
+            o = run(fn_, [Ref(('arg', 'self'))], st)
+            ok = one(o) and isinstance(o[0].val, Ref) and o[0].val.loc == ('obj', 'P4') and not o[0].val.path and not [e for e in o[0].st.events if e[0] in ('write', 'rawderef', 'asm')]
+            chk.ob('constructors', '%s::%s returns the root table' % ({'mapped': 'MappedPageTable', 'offset': 'OffsetPageTable', 'recursive': 'RecursivePageTable'}[impl], fn_.split('::')[-1]), ok,
+                   'paths %r' % (o,), fn_site(I, fn_))
+    # OffsetPageTable::phys_offset gives back the offset the object was built with
+    fn_ = OFFSET + "::<'a>::phys_offset"
+    built = run(OFFSET + "::<'a>::new", [root, off])
+    if fn_ in I.fn and one(built):
+        st = built[0].st
+        st.mem[('arg', 'self')] = built[0].val
+        o = run(fn_, [Ref(('arg', 'self'))], st)
+        chk.ob('constructors', 'OffsetPageTable::phys_offset returns the offset given to new', one(o) and same(o[0].val, off), 'paths %r' % (o,), fn_site(I, fn_))
+    else:
+        chk.unproven('constructors', 'OffsetPageTable::phys_offset', 'function not found or constructor not analysable')
